@@ -1,4 +1,5 @@
 // FAMILY(readers, "C16 well-formed Harwell-Boeing / Rutherford-Boeing / Matrix Market / triplet files in varied legal encodings, read by the real readers")
+// FAMILY(readers_fmt, "C16 Fortran edit-descriptor grammar enumerated: (kIw), (kEw.d), (kDw.d), (kFw.d), (sPkEw.d), (sP,kEw.d) through [sdcz]Parse{Int,Float}Format")
 // FAMILY(readers_bad, "C16 malformed files (truncated, corrupted, inconsistent counts): no memory error")
 /* C16 — matrix file readers.
  *
@@ -496,5 +497,38 @@ void fam_readers_bad(ctx_t *c) {
         if (!strcmp(status, "memerr")) emit_text(f, "text", s.p, s.n);
         out_end(f);
         free(s.p); free_case(&M);
+    }
+}
+
+/* ------------------------------------------------------------------ descriptor grammar, enumerated */
+void fam_readers_fmt(ctx_t *c) {
+    classes_t kl; get_classes(c, &kl);
+    static const char letters[] = "EDFedf";
+    static const char *pv[] = { "", "0P", "1P", "0P,", "1P,", "-1P", "2P,", "1p", "3P" };
+    for (long i = c->start; i < c->start + c->count; i++) {
+        rng_t r; case_rng(c, i, &r); char ty = pick_ty(c, i);
+        long g = ((i >> 2) * 7919L) % 15552L;   /* 12*24*6*9 grid points; 7919 is coprime: 62208 cases enumerate the grid for all four types */
+        int k = 1 + (int)(g % 12); g /= 12; int w = 2 + (int)(g % 24); g /= 24; char L = letters[g % 6]; g /= 6; int pi = (int)(g % 9);
+        if (!kl.pcomma && strchr(pv[pi], ',')) pi = (pi == 3) ? 1 : 2;
+        int d = w > 7 ? rng_int(&r, 0, w - 7) : 0;
+        int ik = rng_int(&r, 1, 40), iw = rng_int(&r, 1, 14); char I = rng_chance(&r, 0.3) ? 'i' : 'I';
+        const char *b1 = rng_chance(&r, 0.15) ? " " : "", *b2 = rng_chance(&r, 0.15) ? " " : "";
+        char ibuf[100], fbuf[100], t[64];
+        /* what the caller's buffer holds behind the field: remains of the title line */
+        for (int q = 0; q < 99; q++) { ibuf[q] = "ab(1)2 3.I4E5,P"[rng_int(&r, 0, 14)]; fbuf[q] = "ab(1)2 3.I4E5,P"[rng_int(&r, 0, 14)]; } ibuf[99] = fbuf[99] = 0;
+        int l = snprintf(t, sizeof t, "%s(%s%d%c%d%s)", rng_chance(&r, 0.1) ? " " : "", b1, ik, I, iw, b2); if (l > 16) l = snprintf(t, sizeof t, "(%d%c%d)", ik, I, iw);
+        memset(ibuf, ' ', 16); memcpy(ibuf, t, (size_t)l);
+        l = snprintf(t, sizeof t, "(%s%s%d%c%d.%d%s)", pv[pi], (strchr(pv[pi], ',') && rng_chance(&r, 0.2)) ? " " : "", k, L, w, d, b2); if (l > 20) l = snprintf(t, sizeof t, "(%s%d%c%d.%d)", pv[pi], k, L, w, d);
+        memset(fbuf, ' ', 20); memcpy(fbuf, t, (size_t)l);
+        int out[4]; char icopy[100], fcopy[100]; memcpy(icopy, ibuf, 100); memcpy(fcopy, fbuf, 100);
+        out_begin_marker(c->family, i);
+        switch (ty) { case 's': rd_parse_s(ibuf, fbuf, out); break; case 'd': rd_parse_d(ibuf, fbuf, out); break; case 'c': rd_parse_c(ibuf, fbuf, out); break; default: rd_parse_z(ibuf, fbuf, out); }
+        FILE *f = c->out;
+        out_case(f, c->family, i);
+        out_p(f, "ty", "%c", ty); out_p(f, "letter", "%c", L); out_p(f, "pv", "%s", pv[pi][0] ? pv[pi] : "none");
+        emit_text(f, "ibuf", icopy, 99); emit_text(f, "fbuf", fcopy, 99);
+        fprintf(f, "i want 4 %d %d %d %d\n", ik, iw, k, w);
+        out_ints(f, "got", 4, out);
+        out_end(f);
     }
 }
